@@ -74,6 +74,15 @@ func (g *exprGen) refForms() []TExpr {
 
 func lit(t string) TExpr { return TExpr{Text: t, Desc: "lit"} }
 
+// selfOr returns a self.* reference where the generator produces them, else the given reference.
+func selfOr(g *exprGen, alt TExpr) TExpr {
+	if !g.self {
+		return alt
+	}
+	forms := g.refForms()
+	return forms[len(forms)-1]
+}
+
 // Gen returns the expressions of type typ to the given depth. wide=false keeps one
 // representative sub-expression per slot (used below the top level).
 func (g *exprGen) Gen(typ string, depth int, wide bool) []TExpr {
@@ -111,6 +120,12 @@ func (g *exprGen) Gen(typ string, depth int, wide bool) []TExpr {
 				new(builder).e(subRef()).s(`[*].a[`).e(subRef()).s(`].b[`).e(subRef()).s(`]`).done("splat-then-two-index-keys"),
 				new(builder).e(subRef()).s(`.*.tags[`).e(subRef()).s(`]`).done("attr-splat-then-index-key"),
 				new(builder).e(subRef()).s(`[`).e(subRef()).s(`][*].id`).done("index-key-then-splat"),
+				// a self.* traversal followed by another reference inside expressions only the generic fallback handles
+				new(builder).e(selfOr(g, subRef())).s(`[`).e(subRef()).s(`]`).done("self-indexed-by-reference"),
+				new(builder).e(subRef()).s(`[`).e(selfOr(g, subRef())).s(`[*].id[`).e(subRef()).s(`]]`).done("self-splat-in-index-key"),
+				// a call of a function the path context does not know: its arguments are still written references
+				new(builder).s(`nosuchfn(`).e(subRef()).s(`)`).done("unknown-call"),
+				new(builder).s(`fn(nosuchfn(`).e(subRef()).s(`, `).e(subRef()).s(`))`).done("unknown-call-nested"),
 				new(builder).s(`"%{ if `).e(subRef()).s(` }a%{ else }${`).e(subRef()).s(`}%{ endif }"`).done("template-directive"),
 			)
 		}
@@ -163,6 +178,7 @@ func (g *exprGen) Gen(typ string, depth int, wide bool) []TExpr {
 				new(builder).s(`{ k = `).e(sub("string")).s(`, l = `).e(subRef()).s(` }`).done("object-cons"),
 				new(builder).s(`{ (`).e(subRef()).s(`) = `).e(subRef()).s(` }`).done("parenthesised-key"),
 				new(builder).s("{ \"${").e(subRef()).s("}-a\" = \"s\" }").done("template-key"),
+				new(builder).s("{ \"${").e(subRef()).s("}\" = \"s\" }").done("template-wrap-key"),
 				func() TExpr {
 					r := subRef()
 					return new(builder).s(`{ k = `).e(r).s(`, l = `).e(r).s(` }`).done("repeated-reference-in-object")
